@@ -645,6 +645,9 @@ package genql
 //@ func SelectMany
 //@   safety[C09]
 //@   frame[C09]
+//@   at-call Unwind assert flatten-one-level-per-further-dimension[C09]: arg1 == len(dimensions) - 1 && arg0 == callresult(SelectDimension, 0).([]any)
+//@   ensures failed[C09]: err != nil ==> result == nil
+//@   ensures not-an-array[C09]: err == nil && !typeis(callresult(SelectDimension, 0), []any) ==> result == callresult(SelectDimension, 0)
 
 //@ func Unwind
 //@   safety[C09]
